@@ -248,7 +248,7 @@ func runC01(c *Ctx) {
 	for _, k := range keys {
 		c.R.Count(k, total[k])
 	}
-	c.Require("documents", "documents_with_several_excess_decimal_fixed_rows", "corpus_documents_compared", "exact_half_unit_ties", "feature:preset-rounding", "feature:doc-dc-percent-base", "feature:breakdown", "feature:advance-percent", "recalculated_after_removing:charges", "unrounded_bound_checked")
+	c.Require("documents", "documents_with_several_excess_decimal_fixed_rows", "corpus_documents_compared", "exact_half_unit_ties", "feature:preset-rounding", "feature:doc-dc-percent-base", "feature:breakdown", "feature:advance-percent", "feature:advance-zero-percent-with-amount", "recalculated_after_removing:charges", "unrounded_bound_checked")
 }
 
 // runBillRefOnly re-runs only the reference with extra working precision.
